@@ -17,6 +17,7 @@ import (
 	"sync"
 	"sync/atomic"
 	"testing"
+	"time"
 
 	"github.com/NethermindEth/juno/sync/preconfirmed"
 
@@ -276,6 +277,9 @@ func (c *concIter) writer(flat bool) []wEvent {
 		switch st.A.Name {
 		case "ApplyUpdate":
 			m = wr.applyUpdate(&st.A, &st.Res)
+			if m == nil && !flat {
+				m = wr.checkRetained("conc-writer")
+			}
 		case "AdvanceTo":
 			if got := c.storage.AdvanceTo(st.A.O); got != st.Res.Ch {
 				m = mm("advance:"+st.Res.Tag+":result", "AdvanceTo returned the wrong changed flag", st.Res.Ch, got)
@@ -361,9 +365,18 @@ func TestPreconfConc(t *testing.T) {
 			runtime.Gosched()
 			c.start.Store(true)
 			// two thirds of the runs the writer goes flat out, one third it inspects the storage and yields
-			wEvents := c.writer(it%3 != 2)
+			var wEvents []wEvent
+			if m := guarded("conc-writer", func() *mismatch { wEvents = c.writer(it%3 != 2); return nil }); m != nil {
+				c.report(m.key, m.what, m.expected, m.observed)
+			}
 			c.done.Store(true)
-			wg.Wait()
+			waited := make(chan struct{})
+			go func() { wg.Wait(); close(waited) }()
+			select {
+			case <-waited:
+			case <-time.After(gateTimeout):
+				c.report("conc:hang", "a reader goroutine did not come back from the pre-confirmed read path", nil, nil)
+			}
 			if c.diverged != nil {
 				out.Diverge(*c.diverged)
 				diverged = true
